@@ -128,6 +128,47 @@ def _lookup_idiom(expr, keys_var, x, table):
     return ("unknown", norm(expr))
 
 
+def _statement_form_lookup(bbody, keys_var, x, table):
+    """`if x not in T: i = bisect_left(keys, x); x = keys[i]` (statement form of the idiom).
+    Any further change of the position between the bisect and its use is a known-wrong shape: the
+    result is no longer the smallest supported value not below the request."""
+    for s in bbody:
+        if not isinstance(s, ast.If):
+            continue
+        t = s.test
+        if not (isinstance(t, ast.Compare) and len(t.ops) == 1 and isinstance(t.ops[0], ast.NotIn)
+                and norm(t.left) == x and norm(t.comparators[0]) in (table, keys_var)) or s.orelse:
+            continue
+        pos = None
+        use = None
+        for st in s.body:
+            if isinstance(st, ast.Assign) and isinstance(st.targets[0], ast.Name) and isinstance(st.value, ast.Call) \
+                    and norm(st.value.func) in ("bisect_left", "bisect.bisect_left", "bisect_right", "bisect.bisect_right") \
+                    and [norm(a) for a in st.value.args] == [keys_var, x]:
+                pos = st
+            if isinstance(st, ast.Assign) and norm(st.targets[0]) == x and isinstance(st.value, ast.Subscript) \
+                    and norm(st.value.value) == keys_var:
+                use = st
+        if pos is None or use is None:
+            continue
+        iv = pos.targets[0].id
+        if norm(use.value.slice) != iv:
+            return use, "bad", f"`{norm(use)}` does not index with the bisect position `{iv}`"
+        if "bisect_right" in norm(pos.value.func):
+            return use, "ok", "membership test, then bisect_right (x not a key => same as bisect_left)"
+        for st in s.body:
+            if st is pos or st is use:
+                continue
+            for n in ast.walk(st):
+                if isinstance(n, (ast.Assign, ast.AugAssign)):
+                    tg = n.targets[0] if isinstance(n, ast.Assign) else n.target
+                    if norm(tg) == iv and pos.lineno < n.lineno < use.lineno:
+                        return use, "bad", (f"the bisect position is changed afterwards (`{norm(n)}` at line {n.lineno}): "
+                                            f"the grid chosen is no longer the smallest supported one not below the request")
+        return use, "ok", "if x not in T: i = bisect_left(keys, x); x = keys[i]"
+    return None, None, None
+
+
 def obligations_lookup(rep, repo, m):
     f = m.f_get
     body = f.node.body
@@ -191,8 +232,11 @@ def obligations_lookup(rep, repo, m):
             raise AnalysisError(f"unrecognised idiom in {cons}: no `list({T}.keys())` key list")
         rep.ok("O3.key-list", cons, where, f"{keys_var} = list({T}.keys())")
         if lookup is None:
-            raise AnalysisError(f"unrecognised idiom in {cons}: no assignment `{x} = <lookup>`")
-        verdict, desc = _lookup_idiom(lookup.value, keys_var, x, T)
+            lookup, verdict, desc = _statement_form_lookup(bbody, keys_var, x, T)
+            if lookup is None:
+                raise AnalysisError(f"unrecognised idiom in {cons}: no assignment `{x} = <lookup>`")
+        else:
+            verdict, desc = _lookup_idiom(lookup.value, keys_var, x, T)
         if verdict == "ok":
             rep.ok("O3.lower-bound-idiom", cons, repo.rel("angular", lookup), desc)
         elif verdict == "bad":
@@ -247,7 +291,13 @@ def obligations_files(rep, repo, m):
 def obligations_converter(rep, repo, m):
     f = repo.method("AngularGrid", "convert_angular_sizes_to_degrees")
     cons = "angular.AngularGrid.convert_angular_sizes_to_degrees"
-    loop = next((s for s in f.node.body if isinstance(s, ast.For)), None)
+    loop = None
+    for s in f.node.body:
+        if isinstance(s, ast.Return):
+            break  # anything after an unconditional return is dead code
+        if isinstance(s, ast.For):
+            loop = s
+            break
     if loop is None:
         return _converter_vectorised(rep, repo, m, f, cons)
     it = norm(loop.iter)
